@@ -58,9 +58,12 @@ def variants(base, rng):
         if not acoro:
             continue
         have = {tuple(x) for x in acoro}
-        for key in senders:           # plain senders on the async engine: D18 (probed separately)
-            if key not in have:
-                acoro.append(list(key))
+        if rng.random() < 0.5:
+            # (otherwise plain callbacks send from inside the async engine: the trigger is queued all
+            # the same; what such a callback gets back is known finding D18, probed separately)
+            for key in senders:
+                if key not in have:
+                    acoro.append(list(key))
         v = copy.deepcopy(base)
         v["async"] = acoro
         have = {tuple(x) for x in acoro}
